@@ -132,12 +132,14 @@ func (c *ccm) tag(nonce, plaintext, adata []byte) ([]byte, error) {
 		if n <= 0xfeff {
 			binary.BigEndian.PutUint16(block[:i], uint16(n))
 		} else {
-			block[0] = 0xfe
-			block[1] = 0xff
+			// RFC 3610 section 2.2: 0xff 0xfe followed by 4 octets, 0xff 0xff followed by 8 octets
+			block[0] = 0xff
 			if n < uint64(1<<32) {
+				block[1] = 0xfe
 				i = 2 + 4
 				binary.BigEndian.PutUint32(block[2:i], uint32(n))
 			} else {
+				block[1] = 0xff
 				i = 2 + 8
 				binary.BigEndian.PutUint64(block[2:i], uint64(n))
 			}
